@@ -108,6 +108,27 @@ Section L.
     destruct (str_eqb _ _); simpl; auto.
   Qed.
 
+  Lemma ensure_read_fs : forall w s,
+    w_fs (ensure_read w s) = w_fs w /\ w_tr (ensure_read w s) = w_tr w /\ w_hs (ensure_read w s) = w_hs w
+    /\ w_cs (ensure_read w s) = w_cs w.
+  Proof. intros w s. unfold ensure_read. destruct (s_cread (getS w s)); simpl; auto. Qed.
+
+  Lemma cached_sp_r_fs : forall w h,
+    w_fs (fst (cached_sp_r frepr w h)) = w_fs w /\ w_tr (fst (cached_sp_r frepr w h)) = w_tr w.
+  Proof.
+    intros w h. unfold cached_sp_r. destruct (h_cached (getH w h)); [apply cached_sp_fs|].
+    destruct (cached_sp_fs (ensure_read w (h_s (getH w h))) h) as [A B].
+    destruct (ensure_read_fs w (h_s (getH w h))) as [C [D _]]. rewrite A, B, C, D. auto.
+  Qed.
+
+  Lemma reset_docs_frame : forall js w,
+    w_fs (reset_docs w js) = w_fs w /\ w_ss (reset_docs w js) = w_ss w /\ w_hs (reset_docs w js) = w_hs w
+    /\ w_cs (reset_docs w js) = w_cs w /\ w_tr (reset_docs w js) = w_tr w.
+  Proof.
+    unfold reset_docs. induction js as [|j js IH]; intros w; simpl; [auto 6|].
+    destruct (IH (set_HD w j None)) as [A [B [C [D E]]]]. rewrite A, B, C, D, E. simpl. auto 6.
+  Qed.
+
   Lemma open_id_fs : forall w s i,
     w_fs (fst (open_id w s i)) = w_fs w /\ w_tr (fst (open_id w s i)) = w_tr w.
   Proof.
